@@ -101,7 +101,7 @@ def scenarios():
     add('S2 hungarian score||score warmed-up', [_call(hs, 'M', 'OUT', '200', 21)],
         [_call(hs, 'M', 'OUT', '100', 10.5), _call(hs, 'F', 'OUT', 'LJ', 6.5)], bound=(2, 3))
     add('S2 hungarian three threads, three (gender, in/out) parts, first-call', [],
-        [_call(hs, 'M', 'OUT', '100', 10.0), _call(hs, 'F', 'OUT', '100', 11.5), _call(hs, 'F', 'OUT', '200', 23.0)], bound=(1, 2))
+        [_call(hs, 'M', 'OUT', '100', 10.0), _call(hs, 'F', 'OUT', '100', 11.5), _call(hs, 'F', 'OUT', '200', 23.0)], bound=(1, 1))
     add('S2 hungarian M OUT || F IN || M IN first-call', [], [_call(hs, 'M', 'OUT', '100', 10.0), _call(hs, 'F', 'IN', '60', 7.5), _call(hs, 'M', 'IN', '60', 7.0)], bound=(1, 1))
     add('S2 hungarian M || mixed gender X first-call', [], [_call(hs, 'M', 'OUT', '100', 10.5), _call(hs, 'X', 'OUT', 'LJ', 7.5)], bound=(1, 2))
     add('S2 hungarian X || X warmed-up', [_call(hs, 'M', 'OUT', '200', 21)], [_call(hs, 'X', 'OUT', '100', 10.5), _call(hs, 'X', 'IN', '60', 7.0)], bound=(1, 2))
